@@ -12,11 +12,10 @@ SCOPING (decisions that narrow this check, never the property)
     server list is re-armed for the next search-list candidate (DESIGN section 4.6; the
     code does this deliberately in _Resolution.next_request).
   * "terminates within its lifetime": no query is *started* at or after the lifetime and
-    every granted timeout ends within it.  The pause before a re-armed sweep is not clamped
-    to the remaining lifetime by dnspython, so the resolution can end up to one back-off
-    pause (<= 2 s) after the lifetime; that is counted as class
-    `lifetime_overshoot_by_backoff` and reported, the hard bound asserted here is
-    lifetime + 2 s.
+    every granted timeout ends within it, and the resolution ends no later than the lifetime
+    (the back-off pause before a re-armed sweep is clamped to the remaining lifetime; the
+    unclamped pause was finding D27, fixed in /repo).  Class `backoff_clamped` counts the
+    cases in which the clamp mattered.
   * the CNAME chain bound is "fewer than dns.message.MAX_CHAIN (16) CNAME links": a reply
     with 15 links is followed, one with 16 is unusable (the constant is not explained in
     the documentation; this is the reading the code implements).
@@ -67,8 +66,7 @@ ASSUMPTIONS = [
     "vlib/ref/resolver_model.py (imports nothing from dns) is the trusted statement of the "
     "documented behaviour",
     "'not asked again' is scoped to one candidate query name (DESIGN 4.6)",
-    "a resolution may end up to one back-off pause (<= 2 s) after its lifetime: the pause "
-    "before a re-armed sweep is not clamped (counted as class lifetime_overshoot_by_backoff)",
+    "the back-off pause before a re-armed sweep is clamped to the remaining lifetime (D27 fixed)",
     "chain bound: replies with fewer than 16 CNAME links are followed",
     "rotate is off; EDNS/TSIG off",
 ]
@@ -108,7 +106,7 @@ class _Clock:
         if interval < 0:
             raise Violation("termination", f"sleep({interval!r}) with a negative interval", "sleep<0")
         self.pauses.append(interval)
-        self.now = self.now + interval
+        self.now = M.tick(self.now, interval)
 
 
 _env_cache = {}
@@ -247,7 +245,7 @@ class _World:
         self.log.append((qlabels, idx, over_tcp, timeout, self.clock.now))
         o = self.script.next_outcome(idx, over_tcp)
         kind, took = M.effective_kind(o, timeout)
-        self.clock.now = self.clock.now + took
+        self.clock.now = M.tick(self.clock.now, took)
         self.replies.append(None)
         if kind == "timeout":
             raise dns.exception.Timeout(timeout=timeout)
@@ -753,7 +751,10 @@ def _check_budget(case, mode, rno, got):
                 f"elapsed {el!r}",
                 f"{mode}:granted-too-much",
             )
-    if got["end"] - start > life + M.BACKOFF_CAP + EPS:
+    import math
+
+    # tolerance: a few ulps of the (large) absolute clock value, see resolver_model.tick
+    if got["end"] - start > life + max(EPS, 4 * math.ulp(got["end"])):
         raise Violation(
             "termination",
             f"{tag}: resolution took {got['end'] - start!r}s of a {life}s lifetime",
@@ -873,7 +874,9 @@ def _classify(case, plan):
         if s["slow_timeout"]:
             classes.add("slow_reply_as_timeout")
         if s["overshoot"]:
-            classes.add("lifetime_overshoot_by_backoff")
+            classes.add("lifetime_overshoot")
+        if s.get("backoff_clamped"):
+            classes.add("backoff_clamped")
         if any(t["kind"] == "nxdomain" for t in r["trace"]) and o["kind"] != "NXDOMAIN":
             classes.add("nxdomain_then_other_result")
         if len(r["log"]) >= 10:
